@@ -6,6 +6,7 @@ toolchain go1.26.1
 
 require (
 	github.com/anishathalye/porcupine v1.3.0
+	github.com/golang/glog v1.2.5
 	github.com/openconfig/gribi v1.9.1
 	github.com/openconfig/gribigo v0.0.0
 	github.com/openconfig/ygot v0.34.0
@@ -15,7 +16,6 @@ require (
 )
 
 require (
-	github.com/golang/glog v1.2.5 // indirect
 	github.com/google/go-cmp v0.7.0 // indirect
 	github.com/google/uuid v1.6.0 // indirect
 	github.com/kylelemons/godebug v1.1.0 // indirect
